@@ -1963,7 +1963,9 @@ class IRGenerator:
             # also recurse on enumerated subtypes for structs if present
             seen.add(data_type)
             output_types[data_type.namespace.name].append(data_type)
-            for field in data_type.all_fields:
+            # Own fields only: the docs of inherited fields are written in the
+            # namespace of the parent, which is walked below.
+            for field in data_type.fields:
                 self._find_dependencies_recursive(field, seen, output_types, output_routes,
                                                   type_context=data_type)
             if data_type.parent_type is not None:
